@@ -360,3 +360,268 @@ pub fn pool_wrap() {
         report::violation(v.class, v.detail);
     }
 }
+
+/// `pool-cross`: two rings, pools on both, reads that pair a descriptor of one
+/// ring with a pool buffer of the other (safe API, nothing prevents it). A
+/// buffer group is known to its own ring only: such a read ends with ENOBUFS
+/// and never makes the kernel touch the memory of a pool the operation does
+/// not keep alive; pool handles are dropped at drawn moments.
+pub fn pool_cross() {
+    use std::task::{Context, Poll};
+    use crate::exec::{DynTask, Produced};
+    use crate::kernel::{self, KCfg};
+    use crate::ops::{self, Kind, World};
+    use crate::{alloc, stats};
+    kernel::with(|k| {
+        k.cfg = KCfg {
+            p_yield_act: tape::pick(site::CFG, &[0u32, 20]),
+            foreign_groups: true,
+            ..KCfg::default()
+        }
+    });
+    let mut rings: Vec<a10::Ring> = Vec::new();
+    for _ in 0..2 {
+        let size = tape::pick(site::GEOM, &[4u32, 8, 2]);
+        match alloc::a10(|| a10::Ring::config().with_submission_queue_size(size).build()) {
+            Ok(r) => rings.push(r),
+            Err(e) => {
+                report::harness_error(format!("ring build failed: {e}"));
+                return;
+            }
+        }
+    }
+    let mut sqs: Vec<Option<a10::SubmissionQueue>> = rings.iter().map(|r| Some(alloc::a10(|| r.sq()))).collect();
+    let mut w = World {
+        ring: None,
+        sq: alloc::a10(|| sqs[0].as_ref().unwrap().clone()),
+        fds: Vec::new(),
+        pools: Vec::new(),
+        direct_enabled: false,
+        other: None,
+        signals: Vec::new(),
+    };
+    // Descriptors of both rings.
+    let mut fd_ring: Vec<usize> = Vec::new();
+    for r in 0..2 {
+        for _ in 0..1 + tape::choose(site::GEOM, 2) {
+            let n = kernel::with(|k| k.issue_fd("harness", kernel::NO_OP));
+            let sq = sqs[r].as_ref().unwrap();
+            let fd = alloc::a10(|| unsafe { a10::AsyncFd::from_raw_fd(n, sq.clone()) });
+            w.add_fd(fd);
+            fd_ring.push(r);
+        }
+    }
+    // Pools in a drawn creation order; both rings get at least one.
+    let mut pool_ring: Vec<usize> = vec![0, 1];
+    for _ in 0..tape::choose(site::GEOM, 3) {
+        pool_ring.push(tape::choose(site::GEOM, 2) as usize);
+    }
+    if tape::chance(site::GEOM, 1, 2) {
+        pool_ring.swap(0, 1);
+    }
+    let mut pools: Vec<Option<a10::io::ReadBufPool>> = Vec::new();
+    for r in &pool_ring {
+        let size = tape::pick(site::GEOM, &[2u16, 1, 4]);
+        let sq = sqs[*r].as_ref().unwrap();
+        match alloc::a10(|| a10::io::ReadBufPool::new(sq.clone(), size, 16)) {
+            Ok(p) => pools.push(Some(p)),
+            Err(e) => {
+                report::harness_error(format!("pool: {e}"));
+                return;
+            }
+        }
+    }
+    struct T {
+        id: u32,
+        task: Box<dyn DynTask>,
+        expect: ops::Expect,
+        cross: bool,
+        single: bool,
+        name: &'static str,
+    }
+    let mut tasks: Vec<T> = Vec::new();
+    let mut held: Vec<a10::io::ReadBuf> = Vec::new();
+    let mut next_id = 0u32;
+    let wk = std::task::Waker::noop();
+    let steps = 6 + tape::choose(site::STEP, 24);
+    let flush = || {
+        for v in alloc::take_violations() {
+            report::violation(v.class, v.detail);
+        }
+    };
+    for _ in 0..steps {
+        match tape::choose(site::STEP, 16) {
+            0..=3 if tasks.len() < 4 => {
+                let live: Vec<usize> = (0..pools.len()).filter(|j| pools[*j].is_some()).collect();
+                if live.is_empty() {
+                    continue;
+                }
+                let j = live[tape::choose(site::TARGET, live.len() as u32) as usize];
+                let f = tape::choose(site::TARGET, w.fds.len() as u32) as usize;
+                let kind = tape::pick(site::OPKIND, &[Kind::ReadPool, Kind::ReadPool, Kind::RecvFromPool, Kind::MultishotRead, Kind::MultishotRecv]);
+                let cross = fd_ring[f] != pool_ring[j];
+                let id = next_id;
+                next_id += 1;
+                w.pools.push(alloc::a10(|| pools[j].as_ref().unwrap().clone()));
+                let old = kernel::set_cur(id, kernel::During::Other);
+                let made = ops::make(&mut w, kind, Some(f), Some(0), id as u8);
+                kernel::set_cur(old.0, old.1);
+                let h = w.pools.pop();
+                alloc::a10(|| drop(h));
+                crate::ev!(
+                    "h op#{id} {} on a descriptor of ring {} with pool {j} of ring {}",
+                    made.name,
+                    fd_ring[f],
+                    pool_ring[j]
+                );
+                if cross {
+                    stats::inc(stats::C::probe_pool_cross_ring);
+                }
+                tasks.push(T {
+                    id,
+                    task: made.task,
+                    expect: made.expect,
+                    cross,
+                    single: matches!(kind, Kind::ReadPool | Kind::RecvFromPool),
+                    name: made.name,
+                });
+            }
+            0..=7 if !tasks.is_empty() => {
+                let i = tape::choose(site::TARGET, tasks.len() as u32) as usize;
+                let mut cx = Context::from_waker(wk);
+                let mut produced = Vec::new();
+                let old = kernel::set_cur(tasks[i].id, kernel::During::Poll);
+                let r = tasks[i].task.poll(&mut cx, &mut produced);
+                kernel::set_cur(old.0, old.1);
+                let t = &tasks[i];
+                crate::ev!("h poll op#{} -> {r:?}", t.id);
+                let mut done = false;
+                match &r {
+                    Poll::Pending => {}
+                    Poll::Ready(None) => done = true,
+                    Poll::Ready(Some(Ok(got))) => {
+                        done = t.single;
+                        if t.cross {
+                            report::violation(
+                                "pool.foreign-buffer",
+                                format!(
+                                    "{} (op#{}) on a descriptor of one ring with a buffer of the other ring's pool returned {got:?}: the kernel selected a buffer of a pool this operation does not keep alive",
+                                    t.name, t.id
+                                ),
+                            );
+                        } else if t.single {
+                            let want = kernel::with(|k| k.records.iter().rev().find(|rec| rec.by_op == t.id).map(|rec| (t.expect)(rec, 0)));
+                            if let Some(Ok(want)) = want {
+                                if *got != want {
+                                    report::violation(
+                                        "res.wrong",
+                                        format!("{} (op#{}) returned {got:?}, the kernel wrote {want:?}", t.name, t.id),
+                                    );
+                                }
+                            }
+                        }
+                    }
+                    Poll::Ready(Some(Err(e))) => {
+                        done = true;
+                        if t.cross && *e != libc::ENOBUFS {
+                            report::violation(
+                                "pool.foreign-buffer",
+                                format!(
+                                    "{} (op#{}) with a buffer group the ring does not know ended with error {e} instead of ENOBUFS",
+                                    t.name, t.id
+                                ),
+                            );
+                        }
+                    }
+                }
+                for p in produced {
+                    if let Produced::ReadBuf(b) = p {
+                        held.push(b);
+                    }
+                }
+                if done {
+                    let t = tasks.swap_remove(i);
+                    let old = kernel::set_cur(t.id, kernel::During::Drop);
+                    alloc::a10(|| drop(t.task));
+                    kernel::set_cur(old.0, old.1);
+                }
+            }
+            8..=9 => {
+                let r = tape::choose(site::TARGET, 2) as usize;
+                let res = alloc::a10(|| rings[r].poll(Some(std::time::Duration::ZERO)));
+                if let Err(e) = res {
+                    report::violation("panic", format!("Ring::poll failed: {e}"));
+                }
+            }
+            10..=12 => {
+                let r = tape::choose(site::TARGET, 2) as usize;
+                kernel::with(|k| k.complete_some(r));
+            }
+            13 if !tasks.is_empty() => {
+                let i = tape::choose(site::TARGET, tasks.len() as u32) as usize;
+                let t = tasks.swap_remove(i);
+                crate::ev!("h drop op#{}", t.id);
+                let old = kernel::set_cur(t.id, kernel::During::Drop);
+                alloc::a10(|| drop(t.task));
+                kernel::set_cur(old.0, old.1);
+            }
+            14 => {
+                let live: Vec<usize> = (0..pools.len()).filter(|j| pools[*j].is_some()).collect();
+                if !live.is_empty() {
+                    let j = live[tape::choose(site::TARGET, live.len() as u32) as usize];
+                    crate::ev!("h drop the handle of pool {j} (ring {})", pool_ring[j]);
+                    let p = pools[j].take();
+                    alloc::a10(|| drop(p));
+                }
+            }
+            _ if !held.is_empty() => {
+                let j = tape::choose(site::TARGET, held.len() as u32) as usize;
+                let b = held.swap_remove(j);
+                alloc::a10(|| drop(b));
+            }
+            _ => {}
+        }
+        kernel::with(|k| {
+            k.observe_pbufs(0);
+            k.observe_pbufs(1);
+        });
+        flush();
+        if report::has_violation() {
+            break;
+        }
+    }
+    stats::add(stats::C::total_steps, u64::from(steps));
+    // Wind down: futures first, what the kernel still runs is finished, then
+    // buffers, pools, descriptors, queue handles and the rings.
+    for t in tasks.drain(..) {
+        let old = kernel::set_cur(t.id, kernel::During::Drop);
+        alloc::a10(|| drop(t.task));
+        kernel::set_cur(old.0, old.1);
+    }
+    for _ in 0..6 {
+        for r in 0..2 {
+            let _ = alloc::a10(|| rings[r].poll(Some(std::time::Duration::ZERO)));
+            kernel::with(|k| {
+                for kid in k.completable(r) {
+                    k.complete_kid(r, kid, true);
+                }
+            });
+            let _ = alloc::a10(|| rings[r].poll(Some(std::time::Duration::ZERO)));
+        }
+    }
+    alloc::a10(|| drop(held));
+    kernel::with(|k| {
+        k.observe_pbufs(0);
+        k.observe_pbufs(1);
+    });
+    flush();
+    let World { sq, fds, .. } = w;
+    alloc::a10(|| {
+        drop(pools);
+        drop(fds);
+        drop(sq);
+        sqs.clear();
+        drop(rings);
+    });
+    flush();
+}
